@@ -243,7 +243,15 @@ pub fn c12(seed: u64, n: usize) {
         let last = *steps.last().unwrap();
         let park = Isometry3::from_parts(Translation3::from(last.translation.vector + Vector3::new(0.0, 0.0, 0.03)), last.rotation);
         // obstacle layouts: free, grazing (next to the stroke), blocking (plate across the stroke)
-        let layout = done % 4;
+        let layout = done % 5;
+        let include = r.chance(0.6);
+        let p_step = *r.pick(&[0.01, 0.02, 0.05]);
+        let p_cost = *r.pick(&[3f64.to_radians(), 6f64.to_radians(), 0.3]);
+        let p_coef = match r.below(3) { 0 => DEFAULT_TRANSITION_COSTS, 1 => [*r.pick(&[0.5, 2.0, 4.0]); 6],
+                _ => [r.range(0.3, 3.0), r.range(0.3, 3.0), r.range(0.3, 3.0), r.range(0.3, 3.0), r.range(0.3, 3.0), r.range(0.3, 3.0)] };
+        let p_depth = *r.pick(&[0usize, 2, 6, 8]);
+        let mut from = q_land; for kk in 0..6 { from[kk] += r.range(-0.3, 0.3); }
+        if layout == 3 { from = q_land; }
         let midp = land.translation.vector + dir * (len * 0.5);
         let side = dir.cross(&Vector3::z()).normalize();
         match layout {
@@ -262,23 +270,45 @@ pub fn c12(seed: u64, n: usize) {
                     k.kws.body.collision_environment.push(CollisionBody { mesh: box_mesh([0.03, 0.03, 0.03], [0.0; 3], false), pose: Isometry3::translation(e.x as f32, e.y as f32, e.z as f32) });
                 }
             }
+            4 => {
+                // a small cube that only the FIRST Cartesian waypoint after landing touches (waypoints taken from the plan
+                // of the obstacle-free cell): every waypoint of a successful plan is checked, this one included
+                if k.kws.body.safety.mode == rs_opw_kinematics::collisions::CheckMode::NoCheck { k.kws.body.safety.mode = rs_opw_kinematics::collisions::CheckMode::FirstCollisionOnly; }
+                let pre = catch(AssertUnwindSafe(|| {
+                    let pl = Cartesian { robot: &k.kws, check_step_m: p_step, check_step_rad: 3f64.to_radians(), max_transition_cost: p_cost, transition_coefficients: p_coef,
+                        linear_recursion_depth: p_depth, rrt: RRTPlanner { step_size_joint_space: 3f64.to_radians(), max_try: 500, debug: false },
+                        include_linear_interpolation: true, debug: false };
+                    pl.plan(&from, &land, steps.clone(), &park).ok()
+                })).flatten();
+                if let Some(path) = pre {
+                    if let Some(li) = path.iter().position(|w| w.flags.bits() & 16 != 0) {
+                        if li + 2 < path.len() {
+                            let w1 = path[li + 1].joints;
+                            let at = k.kws.forward_with_joint_poses(&w1)[5];
+                            for _ in 0..60 {
+                                let c = at * nalgebra::Point3::new(r.range(-0.1, 0.1), r.range(-0.1, 0.1), r.range(-0.05, 0.2));
+                                let h = *r.pick(&[0.004f32, 0.008, 0.015]);
+                                k.kws.body.collision_environment.push(CollisionBody { mesh: box_mesh([h, h, h], [0.0; 3], false), pose: Isometry3::translation(c.x as f32, c.y as f32, c.z as f32) });
+                                let good = k.kws.collides(&w1) && !k.kws.collides(&from) && path.iter().enumerate().all(|(i, w)| i == li + 1 || !k.kws.collides(&w.joints));
+                                if good { break; }
+                                k.kws.body.collision_environment.pop();
+                            }
+                        }
+                    }
+                }
+            }
             _ => {}
         }
         if k.kws.body.safety.mode == rs_opw_kinematics::collisions::CheckMode::NoCheck { k.kws.body.safety.mode = rs_opw_kinematics::collisions::CheckMode::FirstCollisionOnly; }
-        let mut from = q_land; for kk in 0..6 { from[kk] += r.range(-0.3, 0.3); }
-        if layout == 3 { from = q_land; }
         if k.kws.collides(&from) { continue; }
         done += 1;
-        let include = r.chance(0.6);
-        let planner = Cartesian { robot: &k.kws, check_step_m: *r.pick(&[0.01, 0.02, 0.05]), check_step_rad: 3f64.to_radians(),
-            max_transition_cost: *r.pick(&[3f64.to_radians(), 6f64.to_radians(), 0.3]),
-            transition_coefficients: match r.below(3) { 0 => DEFAULT_TRANSITION_COSTS, 1 => [*r.pick(&[0.5, 2.0, 4.0]); 6],
-                _ => [r.range(0.3, 3.0), r.range(0.3, 3.0), r.range(0.3, 3.0), r.range(0.3, 3.0), r.range(0.3, 3.0), r.range(0.3, 3.0)] },
-            linear_recursion_depth: *r.pick(&[0usize, 2, 6, 8]), rrt: RRTPlanner { step_size_joint_space: 3f64.to_radians(), max_try: 500, debug: false },
+        let planner = Cartesian { robot: &k.kws, check_step_m: p_step, check_step_rad: 3f64.to_radians(),
+            max_transition_cost: p_cost, transition_coefficients: p_coef,
+            linear_recursion_depth: p_depth, rrt: RRTPlanner { step_size_joint_space: 3f64.to_radians(), max_try: 500, debug: false },
             include_linear_interpolation: include, debug: false };
         let pools = [1usize, 2, 4, 16];
         let pool = pools[done % 4];
-        let fam = format!("plan/{}/{}", ["free", "grazing", "blocking", "branch-blocked"][layout], if include { "with-interp" } else { "no-interp" });
+        let fam = format!("plan/{}/{}", ["free", "grazing", "blocking", "branch-blocked", "first-step-grazed"][layout], if include { "with-interp" } else { "no-interp" });
         let mut l = Line::new("C12", &fam, "plan");
         k.ks.encode(&mut l);
         l.j6(&from).iso(&land).n(steps.len()); for s in &steps { l.iso(s); } l.iso(&park);
